@@ -2,8 +2,8 @@
 from reg._common import COMMON_ASSUME
 
 ENTRY = {
-    'lean_files': ['Props/C11.lean'],
-    'lemma_files': ['Lemmas/Deriv.lean', 'Lemmas/Shift.lean', 'Lemmas/Bridge.lean', 'Lemmas/VS.lean', 'Lemmas/Elevate.lean',
+    'lean_files': ['Props/C11.lean', 'Props/C11Triangle.lean'],
+    'lemma_files': ['Lemmas/TriDeriv.lean', 'Model/TriDeriv.lean', 'Model/Triangle.lean', 'Lemmas/Deriv.lean', 'Lemmas/Shift.lean', 'Lemmas/Bridge.lean', 'Lemmas/VS.lean', 'Lemmas/Elevate.lean',
                     'Lemmas/Subdivide.lean', 'Model/Basic.lean', 'Model/Curve.lean'],
     'script': 'props/c11.py',
     'rule': 'curves degree 1..30: hodograph by operator extraction on the identity net (regime E at dyadic s, T at binary64 s), '
